@@ -76,6 +76,34 @@ func (c *ruleCache) clear() {
 	c.Unlock()
 }
 
+// expiredIds collects the ids of the items that readers found expired.
+//
+// A reader (Get, Search, FindRules) holds at most the state's read
+// lock, so it must not remove anything itself: it skips the expired
+// item and notes its id here.  The public entry point then calls the
+// state's purge(), after it has released its own lock; purge() takes
+// the write lock and removes the noted items.  The list has its own
+// mutex because several readers can note ids at the same time.
+type expiredIds struct {
+	sync.Mutex
+	ids []string
+}
+
+func (e *expiredIds) note(id string) {
+	e.Lock()
+	e.ids = append(e.ids, id)
+	e.Unlock()
+}
+
+// take returns the noted ids and empties the list.
+func (e *expiredIds) take() []string {
+	e.Lock()
+	ids := e.ids
+	e.ids = nil
+	e.Unlock()
+	return ids
+}
+
 type AddHookFn func(ctx *Context, state State, id string, fact Map, loading bool) error
 type RemHookFn func(ctx *Context, state State, id string) error
 
